@@ -531,7 +531,11 @@ def verify_contract(con, instance=None, timeout_ms=30000, resolver=None, want_sm
         for p in con.types:
             if p not in params and p != 'ret' and p not in assigned_names(body) and not p.startswith('_') \
                     and not p.startswith('g_') and p not in _bound_names(con):
-                raise ContractDrift('contract of %s types unknown name %s' % (con.key, p))
+                # a type for a local the body does not (or no longer) assign: harmless -- types only matter for names that
+                # exist; a spec expression that still refers to the name fails on its own (unknown name).  Reported, not fatal:
+                # a refactoring that drops a temporary must not make the check undecided.
+                ctx.assumptions_used.add('NOTE: contract of %s declares a type for %s, which the body does not assign (ignored)'
+                                         % (con.key, p))
         # allocation counter
         st.heap[('$alloc', 'next')] = z3.Int('alloc!entry')
         st.pc.append(st.heap[('$alloc', 'next')] > 0)
